@@ -187,6 +187,12 @@ def _run_harness(hn, tier, seed, findings):
         out["undecided"].append({"harness": hn.name, "reason": f"unsupported: {e}"})
     except I.PyRaise as e:
         out["undecided"].append({"harness": hn.name, "reason": f"program raised outside a path: {e.exc!r}"})
+    except (KeyError, AttributeError, TypeError, IndexError, AssertionError, NameError) as e:
+        # the sidecar harness reached for state (a column, a logged call, a local) that the code under contract does not produce (any more):
+        # the harness does not apply to this code - undecided, never a verdict and not a crash of the checker
+        tb = traceback.extract_tb(e.__traceback__)
+        where = next((f"{os.path.basename(fr.filename)}:{fr.lineno}" for fr in reversed(tb) if "/contracts/" in fr.filename), f"{os.path.basename(tb[-1].filename)}:{tb[-1].lineno}" if tb else "?")
+        out["undecided"].append({"harness": hn.name, "reason": f"harness not applicable to this code: {type(e).__name__}: {str(e)[:120]} ({where})"})
     except Exception as e:
         out["error"] = traceback.format_exc()
     obs = list(h.extra_obligations)
@@ -409,6 +415,17 @@ def _run_bounded(b, tier, seed, findings):
     return out
 
 
+def _dead_child(name, exitcode):
+    """a child killed by a signal while the library code ran natively (a stand-in that makes the real code touch an unmapped file, say) is not a
+    crash of the checker and not a verdict either: that stand-in / harness is undecided for this tree; any other silent exit is a checker error"""
+    base = {"harness": name, "obligations": [], "violations": [], "known": [], "undecided": [], "functions": {}, "dropped": {}, "models_used": [], "paths": 0, "error": None}
+    if exitcode is not None and exitcode < 0:
+        base["undecided"] = [{"harness": name, "reason": f"the process running it was killed by signal {-exitcode} inside native library code"}]
+    else:
+        base["error"] = f"child for {name} exited with {exitcode} without a result"
+    return base
+
+
 # ----------------------------------------------------------------------------- property runner
 def run_property(pid, tier="quick", seed=0, only=None, jobs=None):
     t0 = time.time()
@@ -444,12 +461,11 @@ def run_property(pid, tier="quick", seed=0, only=None, jobs=None):
                 try:
                     results.append(pc.recv())
                 except EOFError:
-                    results.append({"error": f"child for {name} died", "harness": name, "obligations": [], "violations": [], "known": [],
-                                    "undecided": [], "functions": {}, "dropped": {}, "models_used": [], "paths": 0})
+                    p.join()
+                    results.append(_dead_child(name, p.exitcode))
                 p.join()
             elif not p.is_alive():
-                results.append({"error": f"child for {name} exited with {p.exitcode}", "harness": name, "obligations": [], "violations": [],
-                                "known": [], "undecided": [], "functions": {}, "dropped": {}, "models_used": [], "paths": 0})
+                results.append(_dead_child(name, p.exitcode))
             elif time.time() - ts > limit:
                 p.terminate()
                 results.append({"error": None, "harness": name, "obligations": [], "violations": [], "known": [],
